@@ -43,6 +43,7 @@ from nemoguardrails.colang.v2_x.lang.colang_ast import (
     SpecType,
     When,
     While,
+    flow_argument_key,
 )
 from nemoguardrails.colang.v2_x.runtime.errors import ColangSyntaxError
 
@@ -328,6 +329,10 @@ class ColangTransformer(Transformer):
         if spec.name is not None:
             if spec.name.islower():
                 spec.spec_type = SpecType.FLOW
+                # Named arguments must not collide with the interpreter's own flow event arguments
+                spec.arguments = {
+                    flow_argument_key(k): v for k, v in spec.arguments.items()
+                }
             elif (
                 spec.name.endswith("Action")
                 and not spec.name.startswith("Start")
